@@ -118,6 +118,15 @@ Definition wminit : wmst := {| wm_sch := empty_schema; wm_direct := false; wm_la
 
 Definition olist (so : option (list item)) : list item := match so with Some l => l | None => [] end.
 
+(* the element z of the data after a write carries the flag of an element of the data before it that
+   has z's identifier (if there is one; the identifier may be repeated in an ill-formed list) *)
+Definition flag_kept (s : schema) (pre : list item) (z : item) : bool :=
+  match key_of s z with
+  | Some k => negb (mem_key k (keys_of s pre)) ||
+              existsb (fun y => match key_of s y with Some k' => eqb_key k' k | None => false end && eqb_flag s y z) pre
+  | None => true
+  end.
+
 Definition accept_ok (s : schema) (full : bool) (c : N) (u : upd) (pre : list item) : bool :=
   (if N.eqb c 0 then forallb (fun y => negb (addressed s full u y) || changeable s y) pre else true) &&
   (if N.eqb c 1
@@ -138,10 +147,7 @@ Definition wmon (m : wmst) (o : op) (out : list obs) : wmst * verdict :=
           let v :=
             if remote then
               (if forallb (fun y => changeable s y || mem_item y post) pre then [] else [CL_PROTECTED]) ++
-              (if forallb (fun z => match key_of s z with
-                                    | Some k => match lfind s k pre with Some y => eqb_flag s y z | None => true end
-                                    | None => true
-                                    end) post then [] else [CL_FLAG]) ++
+              (if forallb (flag_kept s pre) post then [] else [CL_FLAG]) ++
               (if forallb (fun y => addressed s full u y || mem_item y post) pre then [] else [CL_UNADDRESSED]) ++
               (if accept_ok s full c u pre then [] else [CL_ACCEPT]) ++
               (if N.eqb c 0 || eqb_items post pre then [] else [CL_ERR]) ++
@@ -157,9 +163,24 @@ Definition wmon (m : wmst) (o : op) (out : list obs) : wmst * verdict :=
    - Recorded finding: a full (filter-less) remote write goes through the replace path of
      FunctionData.UpdateData and replaces the whole list, protected elements and flags
      included: at such a step the clauses PROTECTED, FLAG and ACCEPT are excused.
+   - Once the stored data is not well-formed (repeated or missing identifiers), a remote write that
+     takes the Merge path ([weak_shape]) is still held to PROTECTED, UNADDRESSED and ERR: whatever the
+     list looks like, an accepted write keeps every element that is protected or that it does not
+     address, and a rejected one changes nothing.  FLAG, ACCEPT and OK are excused there (they are
+     stated through identifiers).
    - Everything is excused once the data or a write is not well-formed (ill-formed update
      lists are C02's recorded findings; a remote write that is not persisted does not exist
      in the API), until a well-formed full local update replaces the data. *)
+(* a write that takes the Merge / SortData path of the engine: no selector or elements in the partial
+   filter, data with complete, pairwise distinct identifiers (or none: a delete-only write) *)
+Definition weak_shape (s : schema) (u : upd) : bool :=
+  negb (is_some (filter_data (u_fp u))) &&
+  match u_new u with [] => true | _ => wf_items s (u_new u) end.
+
+(* [ws_fullw] qualifies the step just taken: in scope it marks a full remote write (finding below); out
+   of scope it marks a remote write of [weak_shape] on a well-formed schema, for which PROTECTED,
+   UNADDRESSED and ERR are proved whatever the stored list looks like (repeated identifiers, elements
+   without identifier) *)
 Record wsst := { ws_sch : schema; ws_direct : bool; ws_oos : bool; ws_fullw : bool }.
 Definition wsinit : wsst := {| ws_sch := empty_schema; ws_direct := false; ws_oos := true; ws_fullw := false |}.
 
@@ -171,8 +192,9 @@ Definition wscope (s : wsst) (o : op) : wsst :=
       let mk oos fw := {| ws_sch := ws_sch s; ws_direct := ws_direct s; ws_oos := oos; ws_fullw := fw |} in
       if remote then
         if negb persist then mk true false
-        else if full then mk (ws_oos s || negb (wf_update (ws_sch s) true u)) true
-        else mk (ws_oos s || negb (wf_update (ws_sch s) false u)) false
+        else if full then (let oos := ws_oos s || negb (wf_update (ws_sch s) true u) in mk oos (negb oos))
+        else (let oos := ws_oos s || negb (wf_update (ws_sch s) false u) in
+              mk oos (oos && wf_schema (ws_sch s) && weak_shape (ws_sch s) u))
       else if negb persist then mk (ws_oos s) false
       else if wf_update (ws_sch s) full u then
         (if full then mk (negb (wf_schema (ws_sch s))) false else mk (ws_oos s) false)
@@ -181,7 +203,9 @@ Definition wscope (s : wsst) (o : op) : wsst :=
   end.
 
 Definition wexcuses (s : wsst) : list Z :=
-  if ws_oos s then [CL_PROTECTED; CL_FLAG; CL_UNADDRESSED; CL_ACCEPT; CL_ERR; CL_OK; CL_OVERLAP]
+  if ws_oos s then
+    (if ws_fullw s then [CL_FLAG; CL_ACCEPT; CL_OK; CL_OVERLAP]
+     else [CL_PROTECTED; CL_FLAG; CL_UNADDRESSED; CL_ACCEPT; CL_ERR; CL_OK; CL_OVERLAP])
   else if ws_fullw s then [CL_PROTECTED; CL_FLAG; CL_ACCEPT] else [].
 
 Fixpoint wjudge (m : wmst) (s : wsst) (tr : list (op * list obs)) : list (verdict * list Z) :=
